@@ -285,4 +285,71 @@ RemFast(a, b) ==
 RemOK(a, b, r) ==
   IF b.d = <<>> THEN Chk(IsPanic(r), "zero-divisor-must-panic")
   ELSE ValIs(r, IF AbsI(a.sc - b.sc) <= 40 THEN RemNaive(a, b) ELSE RemFast(a, b))
+
+\* ---------------------------------------------------------------- C10 / C11: roots (relational: squares / cubes and comparisons only)
+\* Is r the k-th root (k = 2, 3) of the non-negative x, rounded to p significant digits under mode m,
+\* for a result carrying sign `neg`?  r, x are magnitudes (non-negative decimals).
+PowK(y, k) == IF k = 2 THEN DMul(y, y) ELSE DMul(DMul(y, y), y)
+RootRoundedOK(x, k, p, m, neg, r) ==
+  LET E == Adj(x) \div k                      \* adjusted exponent of the true root (floor division)
+      usc == -(E - p + 1)                      \* scale of one unit of the p-th significant digit
+      u == Ulp(usc)
+      rn == Norm(r)
+      onGrid == r.d = <<>> \/ rn.sc <= usc
+      below == DCmp(PowK(r, k), x) <= 0        \* r^k <= x
+      f == IF below THEN r ELSE DSub(r, u)
+      fk == PowK(f, k)
+      exact == DCmp(fk, x) = 0
+      bracket == f.s >= 0 /\ DCmp(fk, x) <= 0 /\ DCmp(x, PowK(DAdd(f, u), k)) < 0
+      \* position of the true root relative to the midpoint f + u/2 : compare (2f+u)^k with 2^k x
+      mid == DCmp(PowK(DAdd(DAdd(f, f), u), k), DMul(DOfInt(IF k = 2 THEN 4 ELSE 8), x))
+      fOdd == LET q == Rescale(f, MaxI(usc, f.sc)) IN At(q.d, 1 + (q.sc - usc)) % 2 = 1   \* parity of f in units of u
+      away == IF exact THEN FALSE
+              ELSE CASE m = "Up" -> TRUE [] m = "Down" -> FALSE
+                     [] m = "Ceiling" -> ~neg [] m = "Floor" -> neg
+                     [] OTHER -> IF mid < 0 THEN TRUE ELSE IF mid > 0 THEN FALSE
+                                 ELSE CASE m = "HalfUp" -> TRUE [] m = "HalfDown" -> FALSE [] OTHER -> fOdd
+  IN IF ~onGrid THEN Bad("more-digits-than-the-precision")
+     ELSE IF ~bracket THEN Bad("not-a-neighbour-of-the-true-root")
+     ELSE Chk(below = ~away \/ (exact /\ below), "wrong-neighbour-for-the-mode")
+\* sqrt entry points.  kind: "some" = Option result (negative => None), "abs" = root of |x|, "copysign" = root carrying the sign of x
+SqrtOK(kind, x, p, m, r) ==
+  IF kind = "some" /\ x.s < 0 THEN Chk(IsNone(r), "negative-must-be-none")
+  ELSE IF ~IsD(r) THEN Bad("outcome-kind")
+  ELSE LET y == DecOf(r.d) IN
+       IF x.s = 0 THEN Chk(y.d = <<>>, "sqrt-of-zero")
+       ELSE IF y.s # (IF kind = "copysign" THEN x.s ELSE 1) THEN Bad("sign")
+       ELSE RootRoundedOK(DAbs(x), 2, p, m, FALSE, DAbs(y))
+CbrtOK(x, p, m, r) ==
+  IF ~IsD(r) THEN Bad("outcome-kind")
+  ELSE LET y == DecOf(r.d) IN
+       IF x.s = 0 THEN Chk(y.d = <<>>, "cbrt-of-zero")
+       ELSE IF y.s # x.s THEN Bad("sign")
+       ELSE RootRoundedOK(DAbs(x), 3, p, m, x.s < 0, DAbs(y))
+
+\* ---------------------------------------------------------------- C12: reciprocal
+\* adjusted exponent of 1/x
+AdjInv(x) == IF Norm(x).d = One THEN -Adj(x) ELSE -Adj(x) - 1
+\* does 1/x have at most p significant digits?  <=> x.d divides 10^K, K = p - 1 - AdjInv(x) + x.sc
+InvTerminates(x, p) ==
+  LET K == p - 1 - AdjInv(x) + x.sc IN
+  K >= 0 /\ Len(x.d) <= K + 1 /\ NMod(Pow10(K), x.d) = <<>>
+InverseOK(x, p, m, r) ==
+  IF IsTimeout(r) THEN Bad("does-not-terminate")
+  ELSE IF ~IsD(r) THEN Bad("outcome-kind")
+  ELSE LET y == DecOf(r.d)
+           xy == DMul(x, y)
+           err == DAbs(DSub(xy, DOne))                          \* |x*y - 1|
+           u == Ulp(-(AdjInv(x) - p + 1))
+       IN IF y.s # x.s THEN Bad("sign")
+          ELSE IF err.d = <<>> THEN OK                          \* exactly 1/x
+          ELSE IF DCmp(err, DMul(DAbs(x), u)) >= 0 THEN Bad("one-unit-or-more-off")
+          ELSE Chk(~InvTerminates(x, p), "terminating-reciprocal-not-exact")
+\* mirror law: inverse(-x) under the mirrored mode is -inverse(x): one history entry per (|x|, p, mode on the magnitude)
+InvKey(x, p, m) == <<Norm(DAbs(x)), p, IF x.s < 0 THEN Mirror(m) ELSE m>>
+InvAgreeOK(hs, x, p, m, r) ==
+  LET k == DivLookup(hs, InvKey(x, p, m)) IN
+  IF k = 0 \/ ~IsD(r) THEN OK ELSE Chk(ValEq(hs[k][2], DAbs(DecOf(r.d))), "negation-does-not-commute-under-the-mirrored-mode")
+InvRemember(hs, x, p, m, r) ==
+  IF ~IsD(r) \/ DivLookup(hs, InvKey(x, p, m)) # 0 THEN hs ELSE Append(hs, <<InvKey(x, p, m), DAbs(DecOf(r.d))>>)
 =============================================================================
